@@ -140,6 +140,7 @@ type bscript struct {
 }
 
 type rreq struct {
+	answered   bool // a backend set about answering it (one that closes a reused connection on it does not)
 	brokenBody bool // the chunked encoding of the body is broken
 	unsendable bool // what the proxy makes of this request cannot be sent by the transport (its fault or the client's, never the backend's)
 	id         int
@@ -451,6 +452,7 @@ func (p *bpeer) onData() {
 			p.out, p.after = nil, "close"
 			return
 		}
+		rq.answered = true
 		p.prepare(rq)
 	}
 }
@@ -1314,6 +1316,12 @@ func (r *relayRig) judge() {
 			if resp.Status != 502 {
 				c.Violate("C04/status-changed", "backend-status-below-100", "request %d: the backend answered with status %03d, the client got %d, want 502", q.id, sc.status, resp.Status)
 			}
+			continue
+		}
+		if r.staleFirst && !q.answered && resp.Status == 502 {
+			// the only backend that saw the request closed the connection on it, and the other one
+			// stayed out of reach (at its max_conns) for all of try_duration: a gateway error is the answer
+			c.Probe("no-backend-answered-within-try_duration")
 			continue
 		}
 		if resp.Status != sc.status {
